@@ -32,11 +32,13 @@ def key_fn(case, obs, verdict):
         return "%s@prop:confutil.PropertyTagResolver" % verdict.split(" ")[0].replace("BAD:", "")
     if f[0] == "app":
         return "%s:%s@app:%s(%s)" % (verdict.split(" ")[0].replace("BAD:", ""), f[3], _unhex(f[1]), _unhex(f[2]))
-    off = 3 if f[0] == "comp" else 1
+    off = 3 if f[0] == "comp" else (2 if f[0] == "typed" else 1)
     what = verdict.split(" ")[0].replace("BAD:", "")
     mut = f[off].split(":")[0]
     p = _path(f[off + 1])
-    if f[0] == "comp":
+    if f[0] == "typed":
+        where = "generated-struct-type"
+    elif f[0] == "comp":
         where = "%s(%s)" % (_unhex(f[1]), _unhex(f[2]))
     else:
         # pools/<i>/<slot>/... -> pool.<slot>; other paths: first key
@@ -60,7 +62,7 @@ def what_fn(case, obs, verdict):
     if f[0] == "app":
         return "%s (component %s %s, mutation %s at /%s; the implementation answered %s)" % (
             verdict.replace("BAD:", ""), _unhex(f[1]), _unhex(f[2]), f[3], "/".join(_path(f[4])), obs[:60])
-    off = 3 if f[0] == "comp" else 1
+    off = 3 if f[0] == "comp" else (2 if f[0] == "typed" else 1)
     return "%s (mutation %s at /%s; the implementation answered %s)" % (
         verdict.replace("BAD:", ""), f[off].split(":")[0], "/".join(_path(f[off + 1])), obs[:40])
 
